@@ -15,6 +15,7 @@ def dispatch (line : String) : String :=
     | "force" :: rest => forceCmd rest
     | "dist" :: rest => distCmd rest
     | "perm" :: rest => permCmd rest
+    | "ehist" :: rest => ehistCmd rest
     | "names" :: rest => namesCmd rest
     | "color" :: rest => colorCmd rest
     | "tex" :: rest => texCmd rest
